@@ -9,7 +9,7 @@ from . import cxx, libschema, repo
 def gen_dir():
     d = cxx.workdir("lib")
     inc = os.path.join(d, "gen")
-    stamp = os.path.join(d, ".generated")
+    stamp = os.path.join(d, ".generated-" + cxx.src_digest(open(libschema.__file__, "rb").read()))
     if not os.path.exists(stamp):
         with repo.Lock(os.path.join(d, ".lock")):
             if not os.path.exists(stamp):
@@ -19,8 +19,9 @@ def gen_dir():
 
 
 class Variant:
-    def __init__(self, tag, cell, defines=(), opt="-O0", extra=(), args=()):
+    def __init__(self, tag, cell, defines=(), opt="-O0", extra=(), args=(), compile_sig=None):
         self.tag, self.cell, self.defines, self.opt, self.extra, self.args = tag, cell, list(defines), opt, list(extra), list(args)
+        self.compile_sig = compile_sig  # signature to report if this variant does not compile
 
 
 def build_and_run(rep, name, src_name, variants, run_timeout=1800, build_timeout=1200, includes=()):
